@@ -27,7 +27,7 @@ LEVEL_TEXT = ('All literals prefix x quote x (<=2 atoms quick / <=3 core atoms t
               '(one cythonize, five gcc builds: CYTHON_COMPRESS_STRINGS unset/0/1/2/90) and every element is compared with CPython\'s '
               'eval of the identical text on (type, repr); literals CPython rejects must not crash the compiler.')
 LEVEL_NOTE = ('CPython decides validity; a literal CPython rejects but Cython accepts is only counted (leniency is not a value '
-              'violation).  Not covered: .pyx char literals c\'x\', literal NUL/CR characters in the source, t-strings, non-UTF-8 '
+              'violation); only rejected literals of the singles/concat families are compiled (must not crash).  Not covered: .pyx char literals c\'x\', literal NUL/CR characters in the source, t-strings, non-UTF-8 '
               'source encodings, zstd (needs 3.14).  Trusted: CPython 3.12 eval as reference, gcc, zlib/bz2 modules.')
 
 BS = chr(92)
